@@ -1,7 +1,6 @@
 package main
 
 import (
-	"fmt"
 	"math/rand"
 	"sync"
 	"time"
@@ -40,6 +39,7 @@ type lookup struct {
 	stall    bool
 	finished bool
 	released bool
+	crashed  bool // the server ended the connection before taking a snapshot
 	failed   bool
 	lateMs   int64
 	detail   string
@@ -94,14 +94,32 @@ func (b *behRun) snapshot(g, ip int, op opSpec) {
 	select {
 	case sn := <-b.s.cl.snapCh:
 		b.emit(ev{"ev": "Snapshot", "g": lk.slot, "ip": ip, "op": op, "order": sn.order, "conn": cl.rec.id})
+	case <-cl.rec.closedDone:
+		// The handler ended (panicked inside SnapshotForClientIP, or closed the connection) before any byte of the
+		// client: no snapshot for this lookup.  That is an observation about the server, not a harness failure.
+		select {
+		case sn := <-b.s.cl.snapCh:
+			b.emit(ev{"ev": "Snapshot", "g": lk.slot, "ip": ip, "op": op, "order": sn.order, "conn": cl.rec.id})
+		default:
+			cl.rec.mu.Lock()
+			why := cl.rec.panicked
+			cl.rec.mu.Unlock()
+			if why == "" {
+				why = "connection ended by the server"
+			} else {
+				why = "panic: " + why
+			}
+			b.emit(ev{"ev": "NoSnapshot", "g": lk.slot, "ip": ip, "op": op, "why": why, "conn": cl.rec.id})
+			lk.sent, lk.crashed = true, true
+		}
 	case <-time.After(waitStep):
-		fatal("no snapshot taken within %v after connecting (conn %d)", waitStep, cl.rec.id)
+		fatal("neither a snapshot nor the end of the connection within %v after connecting (conn %d)", waitStep, cl.rec.id)
 	}
 }
 
 func (b *behRun) read50(g int) {
 	lk := b.cur[g]
-	if lk == nil || lk.sent {
+	if lk == nil || lk.sent || lk.crashed {
 		return
 	}
 	bytes, fin, stall, detail := buildOpener(lk.op, lk.cl.rec.id, b.rng)
@@ -124,7 +142,10 @@ func (b *behRun) read50(g int) {
 		b.emit(ev{"ev": "Find", "g": lk.slot, "e": mr.tok})
 	case <-lk.cl.rec.authDone:
 		lk.failed = true
-		if ok {
+		lk.cl.rec.mu.Lock()
+		crashed := lk.cl.rec.authSt == "PANIC"
+		lk.cl.rec.mu.Unlock()
+		if ok && !crashed {
 			b.emit(ev{"ev": "Find", "g": lk.slot, "e": 0})
 		}
 		b.release(lk)
@@ -154,7 +175,11 @@ func (b *behRun) markLk(lk *lookup) {
 	if a := mr.ip.Unmap(); a.Is4() && a.As4()[0] == 127 && a.As4()[1] == 0 {
 		ipTok = int(a.As4()[2])*250 + int(a.As4()[3]) - 1
 	}
-	b.emit(ev{"ev": "Mark", "g": lk.slot, "e": mr.tok, "ip": ipTok})
+	me := ev{"ev": "Mark", "g": lk.slot, "e": mr.tok, "ip": ipTok}
+	if mr.panicked != "" {
+		me["panic"] = mr.panicked
+	}
+	b.emit(me)
 }
 
 // release: let the connection run to its end without waiting for it (so that the other connections of the behaviour
@@ -328,5 +353,6 @@ func modeBeh(in, outPath string, seed int64, par int, timeout time.Duration) {
 		}
 	}
 	tr.Close()
-	fmt.Printf("{\"behaviours\":%d,\"skipped_late\":%d}\n", len(behs), skipped)
+	np, last := panics.count()
+	writeJSONStdout(map[string]any{"behaviours": len(behs), "skipped_late": skipped, "panics_logged": np, "last_panic": last})
 }
